@@ -136,7 +136,9 @@ def refPartialQuad (t : Bytes) : Option (Nat × List Nat) :=
 def mapped (lo : List Nat) : Addr := Addr.ofList ([0, 0, 0, 0, 0, 65535] ++ lo)
 
 /-- What a documented netmask text (CIDR or wildcard) denotes: network address as written
-    and prefix length.  Plain addresses are not netmask texts (`none`).
+    and prefix length.
+    * a plain address (what the standard parser accepts)  → that address, 128
+    * RFC 4291 text with a dotted-quad tail `/n`, n ≤ 32   → the address, 96 + n
     * `*` (one or more)                              → ::/0
     * `a.b[.c[.d]]/n`, n ≤ 32 ("192.168/16")         → mapped (missing octets 0), 96 + n
     * `a.*`, `a.b.*`, `a.b.c.*`                       → mapped, 96 + 8·(octets given)
@@ -148,6 +150,8 @@ def docParse (t : Bytes) : Option (Addr × Nat) :=
   let isV6 := t.contains 58
   match splitAt 47 t with
   | [body] =>
+    -- a plain address is the netmask of exactly that address
+    if let some a := refParse body then some (a, 128) else
     if !isV6 then
       let ps := splitAt 46 body
       if ps.length ≥ 2 ∧ ps.length ≤ 4 ∧ ps.getLast? = some [42] then
@@ -171,7 +175,11 @@ def docParse (t : Bytes) : Option (Addr × Nat) :=
         match refPartialQuad body with
         | some (k, lo) => if n ≤ 32 ∧ k ≥ 2 then some (mapped lo, 96 + n) else none
         | none => none
-      else if body.contains 46 then none
+      else if body.contains 46 then
+        -- RFC 4291 text ending in a dotted quad: `/n` counts the bits of the quad, as in a.b.c.d/n
+        match refParse6 body with
+        | some a => if n ≤ 32 then some (a, 96 + n) else none
+        | none => none
       else if n > 128 then none
       else
         match refParse6 body with
